@@ -280,12 +280,15 @@ func (f *file) Close() error {
 		return io.EOF
 	}
 
-	if err := f.ioc.UnsetReadWrite(&f.slot); err != nil {
-		return err
-	}
+	// Release the descriptor even if the poller cannot drop the registration (the IO was closed first, or the
+	// descriptor was closed underneath): returning early would leak it for good, as a second Close does nothing.
+	err := f.ioc.UnsetReadWrite(&f.slot)
 	f.ioc.Deregister(&f.slot)
 
-	return syscall.Close(f.slot.Fd)
+	if cerr := syscall.Close(f.slot.Fd); err == nil {
+		err = cerr
+	}
+	return err
 }
 
 func (f *file) Closed() bool {
